@@ -97,4 +97,16 @@ def bits64 (q : Rat) : Nat :=
     let biased := (e' + 52 + 1023).toNat
     (if q < 0 then 2 ^ 63 else 0) + biased * 2 ^ 52 + (m' - 2 ^ 52)
 
+/-- The rational a binary64 bit pattern denotes (`none` for infinities and NaN). -/
+def ofBits64 (b : Nat) : Option Rat :=
+  let neg : Bool := b / 2 ^ 63 % 2 == 1
+  let biased : Nat := b / 2 ^ 52 % 2 ^ 11
+  let frac : Nat := b % 2 ^ 52
+  if biased == 2047 then none
+  else
+    let v : Rat :=
+      if biased == 0 then ((frac : Nat) : Rat) * pow2 (-1074)
+      else (((frac + 2 ^ 52 : Nat)) : Rat) * pow2 (((biased : Nat) : Int) - 1075)
+    some (if neg then -v else v)
+
 end Esc
